@@ -327,7 +327,7 @@ func c07(p *core.Program, r *core.Report) {
 
 	// ---- rule 3b: the first element of a decoded array is read only where the array is known to be non-empty
 	const r3b = "first-element-guarded"
-	r.Rule(r3b, "in package geojson every read of element 0 of a slice (x[0], also of a nested slice x[0][0]) is unreachable once the CFG edges that imply len(x) > 0 are deleted: the arrays come from the document, `[]` and `null` are valid JSON at every nesting level, and an unguarded x[0] turns them into an index-out-of-range panic instead of a decoded (empty) geometry or an error", 1)
+	r.Rule(r3b, "in package geojson every read of a constant element k of a slice (x[0], x[1], also of a nested slice x[0][1]) is unreachable once the CFG edges that imply len(x) > k are deleted: the arrays come from the document, `[]` and `null` are valid JSON at every nesting level, and an unguarded x[0] turns them into an index-out-of-range panic instead of a decoded (empty) geometry or an error", 1)
 	{
 		for _, fn := range pkgFuncs(p, rel) {
 			n := 0
@@ -345,7 +345,8 @@ func c07(p *core.Program, r *core.Report) {
 					if _, isSlice := x.Type().Underlying().(*types.Slice); !isSlice {
 						continue
 					}
-					if k, isC := eng.ConstInt(idx); !isC || k != 0 {
+					k, isC := eng.ConstInt(idx)
+					if !isC || k < 0 {
 						continue
 					}
 					if _, isC := idx.(*ssa.Const); !isC {
@@ -353,20 +354,25 @@ func c07(p *core.Program, r *core.Report) {
 					}
 					n++
 					key := fmt.Sprintf("%s/first-element#%d", short(fn), n)
-					edges := eng.NonEmptyEdges(fn, x)
+					if k > 0 {
+						key = fmt.Sprintf("%s/element[%d]#%d", short(fn), k, n)
+					}
+					edges := eng.LenAtLeastEdges(fn, x, k+1)
 					ok := len(edges) > 0 && !eng.ReachableCorr(fn.Blocks[0], edges)[b]
 					// a slice built in this function with a constant non-zero length
 					if mk, isMk := x.(*ssa.MakeSlice); isMk && !ok {
-						if l, isC := eng.ConstInt(mk.Len); isC && l > 0 {
+						if l, isC := eng.ConstInt(mk.Len); isC && l > k {
 							ok = true
 						}
 					}
 					if sl, isSl := x.(*ssa.Slice); isSl && !ok {
-						if _, isArr := sl.X.Type().Underlying().(*types.Pointer); isArr && sl.Low == nil && sl.High == nil {
-							ok = true // a whole array
+						if pt, isArr := sl.X.Type().Underlying().(*types.Pointer); isArr && sl.Low == nil && sl.High == nil {
+							if at, isA := pt.Elem().Underlying().(*types.Array); isA && at.Len() > k {
+								ok = true // a whole array, long enough
+							}
 						}
 					}
-					r.Check(ok, r3b, key, p.Pos(in.Pos()), true, "reached only where len > 0 is known", "element 0 of "+x.Name()+" is read at "+p.Pos(in.Pos())+" on a path that does not establish that the slice is non-empty: an empty array at this nesting level of the document (`[[[]]]`) panics with index out of range")
+					r.Check(ok, r3b, key, p.Pos(in.Pos()), true, "reached only where the slice is known to be long enough", fmt.Sprintf("element %d of ", k)+x.Name()+" is read at "+p.Pos(in.Pos())+" on a path that does not establish that the slice is long enough: an array with fewer elements at this nesting level of the document (`[[[]]]`) panics with index out of range")
 				}
 			}
 		}
